@@ -30,13 +30,18 @@ RULE = ('the real helpers are called with scripted callables / a scripted interf
         'THE TWO LOOPS OF pyipmi/sel.py: Sel.get_sel_entry (partial reads: FFh, 16, 15 ... on CAh) and '
         'Sel.get_and_clear_sel_entry (reserve / read / delete, repeated on C5h; every retry budget 1..6 and the default) on '
         'the real Ipmi object against a scripted byte-level SEL device (one 16-byte record; each Get / Delete SEL Entry '
-        'consumes one letter, code 0 serves exactly the bytes asked for; the Reserve SEL requests have their own outcome '
-        'list: first Reserve / renewals refused with node busy, timeout, other), same exploration (alphabet + 0xCA, depth '
-        '4 / 6, tails, seeded longer sequences); compared with the Lean model (Model/SelXfer.lean on SelXfer.scriptSend, '
-        'variant probed).  Oracle: at most 33 requests per get_sel_entry and 35 per round of get-and-clear, at most '
-        '`retry` rounds, RetryError (never a loop that goes on: the request cap is the model\'s fuel - 64 Get SEL Entry '
-        'per read, 90 rounds - beyond every bound of the repaired loops), every Get / Delete carries the most recent '
-        'reservation, unexpected codes (also on Reserve SEL) propagate and end the call, a result is the stored record.  '
+        'consumes one letter; "completed" = COMPLETED WITH k BYTES, 0 <= k <= requested: C serves exactly the bytes asked '
+        'for, S<k> at most k of them - S5 and S1 a device that truncates, S0 the answer `00 next-lo next-hi` without a '
+        'record byte; the Reserve SEL requests have their own outcome list: first Reserve / renewals refused with node '
+        'busy, timeout, other), same exploration (alphabet + 0xCA + S0 S1 S5, depth 4 / 6, tails, seeded longer sequences '
+        'with S0..S20); compared with the Lean model (Model/SelXfer.lean on SelXfer.scriptSend, variant - floor, budget, '
+        'empty-answer stop - probed on the real code and read from the source): outcome, every request and the number of '
+        'record bytes every answer carried.  Oracle: at most 33 requests per get_sel_entry and 35 per round of '
+        'get-and-clear, at most `retry` rounds, RetryError (never a loop that goes on: the request cap is the model\'s '
+        'fuel - 64 Get SEL Entry per read, 90 rounds - beyond every bound of the repaired loops) and RetryError only '
+        'behind a refused 1-byte read or a completed answer without data, every Get / Delete carries the most recent '
+        'reservation, unexpected codes (also on Reserve SEL) propagate and end the call, a result is the stored record '
+        '(also when it arrived in truncated pieces).  '
         'RESERVE OUTCOMES for the three helpers too: reserve_fn raises CompletionCodeError (node busy / timeout / other) at '
         'its k-th call, k = 0..2 (compared with the model, judged: the error propagates, nothing is called after it).')
 ASSUMPTIONS = [
@@ -51,9 +56,10 @@ ASSUMPTIONS = [
     'record-chunk fetching = the SDR path (get_sdr_chunk_helper, get_sdr_data_helper over _get_sdr_chunk / _get_device_sdr_chunk, '
     'the entries generators) AND the two loops of the anchor file pyipmi/sel.py (get_sel_entry: chunk fetching by partial reads; '
     'get_and_clear_sel_entry: reservation loop) - audit findings c13/finding_2 and finding_3',
-    'the scripted SEL device answers a letter with completion code 0 by serving exactly the bytes asked for (a "completed" '
-    'Get SEL Entry that carries no data for a non-zero length is not an outcome of the alphabet; the repaired get_sel_entry '
-    'would repeat such a read for ever, the model says so: SelScript.entry_bound is about scriptSend)',
+    'the scripted SEL device answers a letter with completion code 0 with bytes of its one record, from the offset asked for, '
+    'never more than asked for: all of them (C) or at most k (S<k>, k = 0 included - c13/round2/finding_1: "completed" is a '
+    'letter of the alphabet, the loop advances by the bytes it received and zero is the boundary).  Answers LONGER than asked '
+    'for are not generated; the theorem sel_entry_bounded_any_peer covers them (any peer, any answer)',
     'a loop that does not end is detected by a request cap equal to the model\'s fuel (64 requests per get_sel_entry, 90 rounds '
     'of get-and-clear on a tree without retry budget); both are beyond the bounds proved for the repaired loops (33 / 5 rounds)',
     'clear helper: an initiate-erase answered "erase in progress" is initiated AGAIN instead of being polled (spec_audit_a3 C13 '
@@ -68,6 +74,8 @@ ALPHABET = ['C', 'P', 'R', 'T', 'U', 'B', 'O193']
 # exhaustive exploration of the SDR reads: "other error" includes 0xCA, which get_sdr_data_helper adapts to;
 # "in progress" is completion code 0 like "completed" for a Get (the seeded sequences use it)
 ALPHABET_SDR = ['C', 'R', 'T', 'U', 'B', 'O193', 'O202']
+# the SEL loops: "completed" is completed with k bytes, 0 <= k <= requested - C = all, S<k> = at most k
+ALPHABET_SEL = ALPHABET_SDR + ['S0', 'S1', 'S5']
 CODE = {'C': 0x00, 'P': 0x00, 'R': 0xC5, 'T': 0xC3, 'U': 0xCE, 'B': 0xC0}
 
 _gen = None
@@ -75,7 +83,14 @@ _gen10 = None
 
 
 def code_of(letter):
+    if letter[0] == 'S':            # completed (with at most <k> record bytes)
+        return 0
     return CODE[letter] if letter in CODE else int(letter[1:])
+
+
+def cap_of(letter):
+    """S<k> -> k (the answer to a Get SEL Entry carries at most k record bytes); any other letter -> None"""
+    return int(letter[1:]) if letter[0] == 'S' else None
 
 
 def translate(ctx):
@@ -282,7 +297,10 @@ def run_sdr(helper, rv, letters, tail):
             hit = _sdr_lookup(rid)
             if hit is None:
                 return bytes([0xCB])
-            return bytes([0, hit[1] & 0xFF, hit[1] >> 8]) + hit[0][off:off + cnt]
+            served = hit[0][off:off + cnt]
+            if cap_of(l) is not None:       # S<k>: completed with at most k bytes (the boundary probes below; no model line)
+                served = served[:cap_of(l)]
+            return bytes([0, hit[1] & 0xFF, hit[1] >> 8]) + served
         s.trace.append('?')
         return bytes([0xC1])
     ipmi, _ = dev11.make_ipmi(handler)
@@ -309,7 +327,7 @@ SEL_GAC_FUEL = 90               # rounds of get-and-clear followed on a tree wit
 SEL_ENTRY_BOUND = 33            # Lean: sel_entry_bounded
 SEL_ROUND_BOUND = 35            # Lean: sel_get_and_clear_bounded (per round)
 SEL_DEFAULT_ROUNDS = 5          # Variant.intended.budget
-SEL_VARIANT = {'floor': None, 'budget': None}
+SEL_VARIANT = {'floor': None, 'budget': None, 'empty': False}
 
 
 def run_sel(helper, budget, rv, letters, tail, rplan=()):
@@ -342,10 +360,13 @@ def run_sel(helper, budget, rv, letters, tail, rplan=()):
             res, rid, off, cnt = data[0] | data[1] << 8, data[2] | data[3] << 8, data[4], data[5]
             l = s.next()
             c = code_of(l)
-            s.trace.append('g%d:%d:%d:%d:%d' % (res, rid, off, cnt, c))
             if c != 0:
+                s.trace.append('g%d:%d:%d:%d:%d:0' % (res, rid, off, cnt, c))
                 return bytes([c])
             served = SEL_REC[off:] if cnt == 0xFF else SEL_REC[off:off + cnt]
+            if cap_of(l) is not None:
+                served = served[:cap_of(l)]
+            s.trace.append('g%d:%d:%d:%d:%d:%d' % (res, rid, off, cnt, c, len(served)))
             return bytes([0, SEL_NEXT & 0xFF, SEL_NEXT >> 8]) + served
         if cmd == 0x46 and len(data) == 4:
             res, rid = data[0] | data[1] << 8, data[2] | data[3] << 8
@@ -379,15 +400,18 @@ def run_sel(helper, budget, rv, letters, tail, rplan=()):
 def probe_sel_variant():
     """floor: every Get SEL Entry answered CAh - RetryError behind a last request of F+1 bytes means the length has the
     floor F, no end within the cap means none.  budget: every Get answered C5h, call without `retry` - RetryError after N
-    Reserve SEL means a budget with default N."""
-    SEL_VARIANT.update(floor=None, budget=None)
+    Reserve SEL means a budget with default N.  empty: every Get completed without a record byte - RetryError behind the
+    first such answer means the loop has the empty-answer stop, no end within the cap means it has not."""
+    SEL_VARIANT.update(floor=None, budget=None, empty=False)
     tag, trace = run_sel('sel:entry', None, 7, (), 'O202')
     floor = None
     if tag == 'RetryError' and trace and trace[-1][0] == 'g':
         floor = int(trace[-1].split(':')[3]) - 1
     tag, trace = run_sel('sel:gac', None, None, (), 'R')
     budget = sum(1 for e in trace if e[0] == 'r') if tag == 'RetryError' else None
-    SEL_VARIANT.update(floor=floor, budget=budget)
+    tag, trace = run_sel('sel:entry', None, 7, (), 'S0')
+    empty = tag == 'RetryError' and len(trace) == 1
+    SEL_VARIANT.update(floor=floor, budget=budget, empty=empty)
     return dict(SEL_VARIANT)
 
 
@@ -421,7 +445,7 @@ def model_line(helper, budget, rv, letters, tail, send_variant, stale_variant=Tr
     ls = ','.join(letters) or '-'
     rp = ','.join(rplan) or '-'
     if helper in SEL_HELPERS:
-        fl = '-' if SEL_VARIANT['floor'] is None else str(SEL_VARIANT['floor'])
+        fl = '%s %d' % ('-' if SEL_VARIANT['floor'] is None else str(SEL_VARIANT['floor']), 1 if SEL_VARIANT['empty'] else 0)
         common = '%d %s %d %s %s %s' % (rv or 0, lean.hexs(SEL_REC), SEL_NEXT, rp, ls, tail)
         if helper == 'sel:entry':
             return 'selentry %s 1 %d %s' % (fl, rv or 0, common)
@@ -519,7 +543,8 @@ def oracle_sdr(helper, rv, tag, trace):
 
 def oracle_sel(helper, budget, rv, tag, trace):
     """The two loops of pyipmi/sel.py, judged on the exchanges the scripted device saw (r<id> Reserve granted, f<cc>
-    Reserve refused, g<res>:<rid>:<off>:<len>:<cc> Get SEL Entry, d<res>:<rid>:<cc> Delete SEL Entry)."""
+    Reserve refused, g<res>:<rid>:<off>:<len>:<cc>:<record bytes in the answer> Get SEL Entry, d<res>:<rid>:<cc> Delete SEL
+    Entry)."""
     bad = []
     entry = helper == 'sel:entry'
     name = 'get_sel_entry' if entry else 'get_and_clear_sel_entry'
@@ -540,11 +565,20 @@ def oracle_sel(helper, budget, rv, tag, trace):
     long_read = [r for r in rounds if len(r['gets']) > SEL_ENTRY_BOUND]
     if long_read or (entry and tag == 'py:nontermination'):
         n = len(long_read[0]['gets']) if long_read else len(trace)
-        sig = 'get_sel_entry:unbounded-after-CAh' if any(g[4] == 0xCA for r in rounds for g in r['gets']) \
-            else 'unbounded:get_sel_entry'
-        bad.append((sig, 'get_sel_entry is still asking after %d Get SEL Entry requests (a repaired loop needs at most %d: the 17 '
-                    'lengths FFh, 16 ... 1 and one request per byte); lengths asked for: %s ...' % (
-                        n, SEL_ENTRY_BOUND, ' '.join('%02x' % g[3] for g in (long_read[0] if long_read else rounds[0])['gets'][:22]))))
+        gets = (long_read[0] if long_read else rounds[-1])['gets']
+        tail_gets = gets[-8:]
+        if tail_gets and all(g[4] == 0 and g[5] == 0 for g in tail_gets):
+            # the last requests were all "completed" without a record byte - and identical
+            sig = 'get_sel_entry:unbounded-on-empty-answer'
+            bad.append((sig, 'get_sel_entry is still asking after %d Get SEL Entry requests: the device answers "completed" '
+                        'without a record byte (00 next-lo next-hi), the offset stays at %d and the identical request (%d '
+                        'bytes from offset %d) is sent again and again; expected RetryError (a bounded loop needs at most %d '
+                        'requests)' % (n, tail_gets[-1][2], tail_gets[-1][3], tail_gets[-1][2], SEL_ENTRY_BOUND)))
+        else:
+            sig = 'get_sel_entry:unbounded-after-CAh' if any(g[4] == 0xCA for g in gets) else 'unbounded:get_sel_entry'
+            bad.append((sig, 'get_sel_entry is still asking after %d Get SEL Entry requests (a repaired loop needs at most %d: '
+                        'the 17 lengths FFh, 16 ... 1 and one request per byte); lengths asked for: %s ...' % (
+                            n, SEL_ENTRY_BOUND, ' '.join('%02x' % g[3] for g in gets[:22]))))
     elif not entry and (tag == 'py:nontermination' or len(rounds) > allowed_rounds
                         or len(trace) > SEL_ROUND_BOUND * allowed_rounds):
         last = [r for r in rounds if r['gets'] or r['del']][-3:]
@@ -574,7 +608,7 @@ def oracle_sel(helper, budget, rv, tag, trace):
         if e[0] == 'f':
             c = int(e[1:])
         elif e[0] in 'gd':
-            c = int(e.split(':')[-1])
+            c = int(e.split(':')[4 if e[0] == 'g' else 2])
             if c == 0 or (e[0] == 'g' and c == 0xCA) or (not entry and c == 0xC5):
                 c = None
         if c is not None:
@@ -585,15 +619,18 @@ def oracle_sel(helper, budget, rv, tag, trace):
     # RetryError only when something was exhausted
     if tag == 'RetryError':
         last = trace[-1] if trace else ''
-        gave_up_read = last[:1] == 'g' and last.endswith(':202')
+        lg = [int(x) for x in last[1:].split(':')] if last[:1] == 'g' else None
+        # the read is given up behind a refusal (CAh) or behind a completed answer that brought no byte
+        gave_up_read = lg is not None and (lg[4] == 0xCA or (lg[4] == 0 and lg[5] == 0))
         if entry and not gave_up_read:
-            bad.append(('retry-error-unfounded:%s' % name, 'get_sel_entry raised RetryError although its last request (%s) was not '
-                        'refused with CAh' % (last or 'none')))
+            bad.append(('retry-error-unfounded:%s' % name, 'get_sel_entry raised RetryError although its last request (%s) was '
+                        'neither refused with CAh nor completed without data' % (last or 'none')))
         if not entry and not gave_up_read and len(rounds) < allowed_rounds:
             bad.append(('retry-error-unfounded:%s' % name, 'get_and_clear_sel_entry raised RetryError after %d of %d rounds' % (
                 len(rounds), allowed_rounds)))
     # a length of 1 byte is still tried before the read is given up (C12: partial-read limits 1..16)
-    if tag == 'RetryError' and trace and trace[-1][:1] == 'g' and trace[-1].endswith(':202') and int(trace[-1].split(':')[3]) != 1:
+    if tag == 'RetryError' and trace and trace[-1][:1] == 'g' and int(trace[-1].split(':')[4]) == 0xCA \
+            and int(trace[-1].split(':')[3]) != 1:
         bad.append(('gives-up-early:get_sel_entry', 'the read was given up with RetryError after a refused request of %s bytes: '
                     'shorter reads were never tried' % trace[-1].split(':')[3]))
     # a result is the stored record, and for get-and-clear the last request was the acknowledged delete
@@ -799,7 +836,8 @@ def run(ctx):
         elif _gen is not None and _gen['staleRes'] != stale_variant:
             ctx.disagree('renewed reservation variant: source reading vs behaviour', {}, _gen['staleRes'], stale_variant)
         sel_variant = probe_sel_variant()
-        read = None if _gen10 is None else {'floor': _gen10['sel']['floor'], 'budget': _gen10['sel']['budget']}
+        read = None if _gen10 is None else {'floor': _gen10['sel']['floor'], 'budget': _gen10['sel']['budget'],
+                                            'empty': bool(_gen10['sel'].get('emptyStop'))}
         ctx.extra['sel_loops_variant'] = {'probed_on_real_code': dict(sel_variant), 'read_from_source': read}
         if read is not None and read != sel_variant:
             ctx.disagree('variant of the SEL loops: source reading vs behaviour', {}, read, sel_variant)
@@ -838,13 +876,24 @@ def run(ctx):
                 plans.append(('sel:gac', None if sel_variant['budget'] is None else 4, None, rdepth, rp))
         # the two constant outcome sequences of the audit findings first (they are the shortest witnesses)
         _check_batch(ctx, drv, [('sel:entry', None, 7, (), 'O202', run_sel('sel:entry', None, 7, (), 'O202')),
-                                ('sel:gac', None, None, (), 'R', run_sel('sel:gac', None, None, (), 'R'))],
+                                ('sel:gac', None, None, (), 'R', run_sel('sel:gac', None, None, (), 'R')),
+                                ('sel:entry', None, 7, (), 'S0', run_sel('sel:entry', None, 7, (), 'S0')),
+                                ('sel:gac', gac_budgets[-1] and 1, None, (), 'S0',
+                                 run_sel('sel:gac', gac_budgets[-1] and 1, None, (), 'S0'))],
                      send_variant, found, stale_variant)
+        # the same boundary in the sibling loop, get_sdr_data_helper (bounded by its chunk counter `retry = 20`; theorem
+        # data_requests_bounded: any transport): body chunks completed with k < requested bytes, k = 0 included - judged by
+        # the oracle only (the scripted SDR device of the model serves exactly the bytes asked for)
+        for h in SDR_HELPERS:
+            _check_batch(ctx, None, [(h, 5, None, p, t, run_sdr(h, None, p, t))
+                                     for p in (('C',), ('C', 'S3'), ('C', 'O202', 'S1'), ('C', 'R', 'S2'))
+                                     for t in ('S0', 'S1', 'S7')], send_variant, found, stale_variant)
+            ctx.count('sdr-short-answers', 12)
         for plan in plans:
             h, b, rv, d = plan[:4]
             rp = plan[4] if len(plan) > 4 else ()
             batch = []
-            alphabet = ALPHABET_SDR if h in SDR_HELPERS or h in SEL_HELPERS else None
+            alphabet = ALPHABET_SEL if h in SEL_HELPERS else ALPHABET_SDR if h in SDR_HELPERS else None
             for p, t, res in explore(runner(h, b, rv, rp), d, alphabet):
                 batch.append((h, b, rv, p, t, res, rp))
                 if len(batch) >= 4000:
@@ -894,9 +943,10 @@ def run(ctx):
             rv = rng.randrange(1, 0xFFF0) if h == 'sel:entry' else None
             letters = []
             for _i in range(rng.randrange(0, 40)):
-                l = rng.choice('CCCCCPRRRAAAAAATUO')
-                letters.append({'A': 'O202', 'O': 'O%d' % rng.choice([0xC0, 0xC1, 0xC9, 0xCB, 0xCC, 0xFF, 0x80])}.get(l, l))
-            t = rng.choice(['C', 'C', 'C', 'P', 'R', 'T', 'O202', 'O202'])
+                l = rng.choice('CCCCCPRRRAAAAAATUOSSSSS')
+                letters.append({'A': 'O202', 'O': 'O%d' % rng.choice([0xC0, 0xC1, 0xC9, 0xCB, 0xCC, 0xFF, 0x80]),
+                                'S': 'S%d' % rng.choice([0, 1, 1, 2, 3, 4, 7, 8, 15, 16, 20])}.get(l, l))
+            t = rng.choice(['C', 'C', 'C', 'P', 'R', 'T', 'O202', 'O202', 'S0', 'S1', 'S3'])
             rp = ()
             if h == 'sel:gac' and rng.random() < 0.3:
                 rp = tuple(rng.choice(['C', 'C', 'C', 'B', 'T', 'R', 'O%d' % rng.choice([0xC1, 0xD3, 0xFF])])
@@ -940,6 +990,7 @@ def replay(ctx, v):
         print('  (r<id> = Reserve answered with <id>; g<reservation>:<record>:<offset>:<count>:<completion code> = Get (Device) SDR)')
     if h in SEL_HELPERS:
         print('  (r<id> = Reserve SEL answered with <id>, f<cc> refused; g<reservation>:<record>:<offset>:<bytes to read>:<completion '
-              'code> = Get SEL Entry; d<reservation>:<record>:<completion code> = Delete SEL Entry)')
+              'code>:<record bytes in the answer> = Get SEL Entry; d<reservation>:<record>:<completion code> = Delete SEL Entry; '
+              'outcome S<k> = completed with at most k record bytes)')
     want = v['signature'][len('C13:'):]
     return any(sig == want for sig, _ in bad)
